@@ -955,3 +955,110 @@ class _ArrayModule:
 
 
 STD["array"] = _ArrayModule
+
+
+# --------------------------------------------------------------------------
+# bytearray model
+
+
+class _ByteArrayMeta(_ShadowMeta):
+    real = builtins.bytearray
+
+    def _inst(cls, obj):
+        return isinstance(obj, (builtins.bytearray, SymByteArray))
+
+    def __call__(cls, *a, **k):
+        return SymByteArray(*a, **k)
+
+
+class SymByteArray:
+    """bytearray whose elements may be symbolic (always list-backed; concrete length)."""
+
+    def __init__(self, init=None):
+        if init is None:
+            self.items = []
+        elif isinstance(init, builtins.int):
+            self.items = [0] * init
+        elif isinstance(init, SymNum):
+            self.items = [0] * init.__index__()
+        elif isinstance(init, SymBytes):
+            self.items = list(init.items)
+        elif isinstance(init, SymByteArray):
+            self.items = list(init.items)
+        else:
+            self.items = [_byte_checked(v) for v in init]
+
+    def append(self, v):
+        self.items.append(_byte_checked(v, ValueError, "byte must be in range(0, 256)"))
+
+    def extend(self, vs):
+        if isinstance(vs, (SymBytes, SymByteArray)):
+            self.items.extend(vs.items)
+        elif isinstance(vs, SymArray):
+            # buffer protocol: the array's memory bytes, not its item values
+            self.items.extend(SymBytes.of(vs.tobytes()).items)
+        else:
+            for v in vs:
+                self.append(v)
+
+    def __len__(self):
+        return len(self.items)
+
+    def __symlen__(self):
+        return len(self.items)
+
+    def __getitem__(self, i):
+        if isinstance(i, slice):
+            return SymBytes(self.items[i])
+        if isinstance(i, SymNum):
+            i = i.__index__()
+        return self.items[i]
+
+    def __setitem__(self, i, v):
+        if isinstance(i, SymNum):
+            i = i.__index__()
+        self.items[i] = _byte_checked(v, ValueError, "byte must be in range(0, 256)")
+
+    def __iter__(self):
+        return iter(self.items)
+
+    def __add__(self, o):
+        return SymBytes(self.items) + o
+
+    def __radd__(self, o):
+        return o + SymBytes(self.items)
+
+    def __iadd__(self, o):
+        self.extend(SymBytes.of(o).items if not isinstance(o, SymByteArray) else o.items)
+        return self
+
+    def __eq__(self, o):
+        return SymBytes(self.items) == (SymBytes(o.items) if isinstance(o, SymByteArray) else o)
+
+    def __hash__(self):
+        raise TypeError("unhashable type: 'bytearray'")
+
+    def __bool__(self):
+        return bool(self.items)
+
+    def __deepcopy__(self, memo):
+        b = SymByteArray()
+        b.items = list(self.items)
+        return b
+
+
+class bytearray_(metaclass=_ByteArrayMeta):
+    pass
+
+
+STD["bytearray"] = bytearray_
+_orig_symbytes_of = SymBytes.of
+
+
+def _symbytes_of(x):
+    if isinstance(x, SymByteArray):
+        return SymBytes(list(x.items))
+    return _orig_symbytes_of(x)
+
+
+SymBytes.of = staticmethod(_symbytes_of)
